@@ -24,7 +24,11 @@ def positions(ev):
     return [[ev],
             [{"k": "function", "doc": 0, "params": []}, ev],
             [{"k": "cpp_class", "doc": 1}, {"k": "close"}, ev],
-            [{"k": "generic", "doc": 1}, ev, {"k": "set", "doc": 1, "values": ["tail"]}]]
+            [{"k": "generic", "doc": 1}, ev, {"k": "set", "doc": 1, "values": ["tail"]}],
+            # ordinary undocumented commands that deal with variables around it
+            [{"k": "generic", "doc": 0, "cmd": "unset", "args": ["OLD_VAR"]}, ev,
+             {"k": "generic", "doc": 0, "cmd": "mark_as_advanced", "args": ["FORCE", "SELF_VAR"]},
+             {"k": "generic", "doc": 0, "cmd": "set_property", "args": ["CACHE", "SELF_VAR", "PROPERTY", "STRINGS", "a", "b"]}]]
 
 
 def check_multiline(events, case):
@@ -133,9 +137,18 @@ def run(ctx):
         for vals in ([], ["v"], ["a", "b"]):
             jobs += positions({"k": "set", "doc": 1, "values": vals, "name": "SELF_VAR", "docgap": gap})
         jobs += positions({"k": "option", "doc": 1, "docgap": gap})
+    # values that refer to variables documented earlier in the module stay as written; options after options with other defaults
+    for first in (['"/opt/acme"'], ["a", "b"], ['""']):
+        for second in (['"${BASE_DIR}/bin"'], ["${BASE_DIR}", "x"], ["${BASE_DIR}"], ['"\\${BASE_DIR}"']):
+            jobs.append([{"k": "set", "doc": 1, "name": "BASE_DIR", "values": first}, {"k": "set", "doc": 1, "name": "DERIVED", "values": second}])
+            jobs.append([{"k": "set", "doc": 1, "name": "BASE_DIR", "values": first}, {"k": "option", "doc": 1, "name": "USE_IT", "help": '"use ${BASE_DIR}"', "default": "${BASE_DIR}"}])
+    for d1 in ("ON", "${THREADS_FOUND}", '"text"'):
+        for doc in (1, 0):
+            jobs.append([{"k": "option", "doc": doc, "name": "FIRST_OPT", "default": d1}, {"k": "option", "doc": doc, "name": "SECOND_OPT"},
+                         {"k": "option", "doc": 1 - doc, "name": "THIRD_OPT"}])
     case = common.rot(["lower", "upper", "mixed"], ctx.seed + 4)[0]
     ctx.cov["bounds"] = {"value_forms": FORMS, "core": CORE, "max_values_all_forms": k_all, "max_values_core": k_core,
-                         "helps": HELPS, "defaults": DEFAULTS, "positions": 4, "command_case": case}
+                         "helps": HELPS, "defaults": DEFAULTS, "positions": 5, "command_case": case}
     ctx.sweep(functools.partial(check, case=case), jobs, space="set/option x forms x positions")
     bjobs = [(d, doc) for d in ("ct_add_test", "ct_add_section", "cpp_member") for doc in (0, 1)]
     ctx.sweep(functools.partial(check_between, case=case), bjobs, space="option between a declaration and its implementation",
